@@ -61,10 +61,19 @@ def tok():
 
 
 def make_class(param, idx):
+    class Picky(param.Parameter):
+        """a user's Parameter type that judges a value only when it is assigned"""
+        def __set__(self, obj, val):
+            if val == 'refuse-me':
+                raise ValueError('Picky refuses this value')
+            super().__set__(obj, val)
+
     return type(f'F{idx}', (param.Parameterized,), dict(
         a=param.Parameter(default=('v', 'a0')), b=param.Parameter(default=('v', 'b0')), c=param.Parameter(default=('v', 'c0')),
         s=param.Parameter(default=('v', 's0'), per_instance=False),
-        n=param.Number(default=1, bounds=(0, 10)), e=param.Event(), k=param.Parameter(default='K', constant=True)))
+        n=param.Number(default=1, bounds=(0, 10)), e=param.Event(), k=param.Parameter(default='K', constant=True),
+        # assigning al assigns a, then late: the second may refuse when the first is already in place
+        late=Picky(default=('v', 'l0')), al=param.Composite(attribs=['a', 'late'])))
 
 
 def _old_batch(P):
@@ -236,6 +245,12 @@ class Exec:
                 if f is not None:
                     self.fired.append(f)
                     bad = ('n', 99) if f[3] == 'n' else ('k', 'other') if f[3] == 'k' else ('e', 'yes') if f[3] == 'e' else ('nosuch', 1)
+                    if f[3] == 'comp':
+                        # a Composite whose first constituent is assigned before the second refuses: that change stands, and is
+                        # announced before the failing call returns
+                        first = tok()
+                        bad = ('al', [first, 'refuse-me'])
+                        self.touch('a', first)
                     items.insert(f[2], bad)
                     self.rejected_at = f[2]
                 for kk, vv in items:
@@ -593,7 +608,7 @@ def run_case(idx, rng, P, rep):
     sites = [('watcher', k) for k in range(1, n_inv + 1)]
     for s in count_sites(prog):
         if s[0] == 'updatekey':
-            for badkind in ('n', rng.choice(['k', 'nosuch', 'e'])):
+            for badkind in ('n', rng.choice(['k', 'nosuch', 'e', 'comp', 'comp'])):
                 sites.append(('updatekey', s[1], s[2], badkind))
         else:
             sites.append(s)
